@@ -93,6 +93,7 @@ type panicSite struct {
 	expr   string // stable rendering of the operand
 	detail string
 	canon  string // the same expression with local names replaced by their types (stable under renaming)
+	alt    string // optional second canonical key (e.g. the type of the channel of a send)
 }
 
 type panicModel struct {
@@ -582,6 +583,19 @@ func (bp *boundsProver) indexOK(base, idx ssa.Value) (bool, string) {
 				if ok && bp.same(lg, base) && (bp.same(o.r, bound) || bp.sameLen(o.r, bound)) {
 					return true, "index < n and len(" + render(base) + ") " + o.op.String() + " n is validated on every path to here"
 				}
+			}
+		}
+	}
+	// a buffer made in this function with a length that is a linear expression of lengths, indexed by
+	// another such expression: 0 ≤ idx and idx < length by linear arithmetic over non-negative lengths
+	// (make([]byte, 2+len(label)+2) … buff[2+len(label)+1])
+	if ml != nil {
+		if in, ok := idx.(ssa.Instruction); ok && in.Parent() != nil {
+			le := &lenEnv{fn: in.Parent()}
+			L, I := le.of(ml), le.of(idx)
+			room := vadd(vadd(L, I, -1), vconst(1), -1)
+			if I.nonneg() && room.nonneg() {
+				return true, "0 ≤ index < length of the slice made here, by linear arithmetic over lengths (index = " + I.String() + ", length = " + L.String() + ")"
 			}
 		}
 	}
